@@ -8,6 +8,7 @@ from .. import fields, paths
 from ..core import FUNC, call_attr, calls_in, const, dotted, is_const, kwarg, norm, slice_parts, text, walk_local
 
 EXPLANATION = [
+    'C10.uuid-wire: sizes and bytes of UUIDs in ATT PDUs are taken from to_pdu_bytes(), never bytes(uuid) (same rule as C12.uuid-wire): the space accounting of a response counts what is actually written (32-bit UUIDs expand to 128 bits).',
     'C10.parse-guard: every site that hands received bytes to the server dispatcher parses them inside try/except whose handler sends, for an opcode in ATT_REQUESTS only, an Error Response naming that opcode (Invalid PDU); the fixed ATT channel and the EATT sink both enter through it.',
     'C10.accessor-contained: in Attribute.read_value/write_value every call of an application value accessor (and the await of its result) and of the adapters\' value codecs (decode_value of what the peer wrote, encode_value of what is read) is inside try/except Exception that re-raises as ATT_Error, which is what makes "handlers only see ATT_Error" true for C10.once.',
     'C10.mtu-agreement: after an MTU exchange the server adopts min(value it announced, client_rx_mtu) and the client min(value it sent, server_rx_mtu): the same number on both sides, which every budget rule below relies on.',
@@ -550,6 +551,10 @@ def accessor_contained(ctx):
             continue
         # accessors supplied by the application and the adapters' value codecs (decode of what the peer wrote, encode of what is read)
         calls = [c for c in calls_in(m) if dotted(c.func) in ('self.value.read', 'self.value.write', 'self.decode_value', 'self.encode_value')]
+        # the accessor may return a plain value, a coroutine, a Future or a Task: whatever is awaitable is awaited
+        aw_tests = [n_ for n_ in ast.walk(m) if isinstance(n_, ast.If) and isinstance(n_.test, ast.Call) and (dotted(n_.test.func) or '').startswith('inspect.is') and any(isinstance(x, ast.Await) for x in ast.walk(n_))]
+        R.check(bool(aw_tests) and all(dotted(t.test.func) == 'inspect.isawaitable' for t in aw_tests), rule, f'bumble.att.Attribute.{mname} | awaits every awaitable', f'{len(aw_tests)} accessor result(s) tested with inspect.isawaitable',
+                f'an accessor result is awaited only under `{[dotted(t.test.func) for t in aw_tests if dotted(t.test.func) != "inspect.isawaitable"]}`: a Future or Task returned by the application is handed on as the value, the request handler fails on it and the request is never answered', p.loc(m))
         # application listeners of the read / write events run inside the request too
         emits = [c for c in calls_in(m) if dotted(c.func) == 'self.emit']
         for j, c in enumerate(emits):
@@ -586,7 +591,19 @@ def accessor_contained(ctx):
     R.check(n >= 8, rule, 'bumble.att.Attribute | accessor calls', f'{n} accessor / codec calls', f'only {n} accessor / codec calls found')
 
 
+def uuid_wire_shared(ctx):
+    from . import c12
+    c12.uuid_wire(ctx, rule='C10.uuid-wire')
+
+
+def identity_rule(ctx):
+    from ..generic_rules import identity_compare
+    identity_compare(ctx, 'C10.identity', ['bumble.att', 'bumble.gatt_client', 'bumble.gatt_server', 'bumble.gatt'])
+
+
 RULES = [
+    ('C10.identity', identity_rule),
+    ('C10.uuid-wire', uuid_wire_shared),
     ('C10.parse-guard', parse_guard),
     ('C10.accessor-contained', accessor_contained),
     ('C10.mtu-agreement', mtu_agreement),
